@@ -773,8 +773,8 @@ class Run:
         try:
             with quiet():
                 self.gp.fit()
-        except ValueError:
-            self.ctx.event("fit_without_reactions_raises_ValueError")
+        except Exception as e:
+            self.ctx.event("fit_without_reactions_raises_" + type(e).__name__)
             return
         self.ctx.check(False, ("fit_without_reactions_accepted",))
 
